@@ -154,7 +154,7 @@ static Node *postfix(Token **rest, Token *tok);
 static Node *funcall(Token **rest, Token *tok, Node *node);
 static Node *unary(Token **rest, Token *tok);
 static Node *primary(Token **rest, Token *tok);
-static Token *parse_typedef(Token *tok, Type *basety);
+static Token *parse_typedef(Token *tok, Type *basety, Node **stmt);
 static bool is_function(Token *tok);
 static Token *function(Token *tok, Type *basety, VarAttr *attr);
 static Token *global_variable(Token *tok, Type *basety, VarAttr *attr);
@@ -832,6 +832,12 @@ static Node *compute_vla_size(Type *ty, Token *tok) {
     node = new_binary(ND_COMMA, node, compute_vla_size(ty->base, tok), tok);
 
   if (ty->kind != TY_VLA)
+    return node;
+
+  // The size of a variably modified type is fixed when the type is
+  // established (C11 6.7.6.2p5, 6.7.8p8). A type that is reached again
+  // through a typedef name or typeof already has its size.
+  if (ty->vla_size)
     return node;
 
   Node *base_sz;
@@ -1873,7 +1879,10 @@ static Node *block_items(Token **rest, Token *tok) {
       Type *basety = declspec(&tok, tok, &attr);
 
       if (attr.is_typedef) {
-        tok = parse_typedef(tok, basety);
+        Node *vla = NULL;
+        tok = parse_typedef(tok, basety, &vla);
+        cur = cur->next = new_unary(ND_EXPR_STMT, vla, tok);
+        add_type(cur);
         continue;
       }
 
@@ -3462,8 +3471,12 @@ static Node *primary(Token **rest, Token *tok) {
   error_tok(tok, "expected an expression");
 }
 
-static Token *parse_typedef(Token *tok, Type *basety) {
+// A typedef of a variably modified type evaluates the array sizes when
+// it is reached; *stmt receives that computation (block scope only).
+static Token *parse_typedef(Token *tok, Type *basety, Node **stmt) {
   bool first = true;
+  if (stmt)
+    *stmt = new_node(ND_NULL_EXPR, tok);
 
   while (!consume(&tok, tok, ";")) {
     if (!first)
@@ -3474,6 +3487,8 @@ static Token *parse_typedef(Token *tok, Type *basety) {
     if (!ty->name)
       error_tok(ty->name_pos, "typedef name omitted");
     push_scope(get_ident(ty->name))->type_def = ty;
+    if (stmt)
+      *stmt = new_binary(ND_COMMA, *stmt, compute_vla_size(ty, tok), tok);
   }
   return tok;
 }
@@ -3714,7 +3729,7 @@ Obj *parse(Token *tok) {
 
     // Typedef
     if (attr.is_typedef) {
-      tok = parse_typedef(tok, basety);
+      tok = parse_typedef(tok, basety, NULL);
       continue;
     }
 
